@@ -681,6 +681,33 @@ impl Mut {
         self.alloc_into_root_with_referent(r, size, nrefs, sem, kind, flags, al, off, referent);
     }
 
+    /// A burst of small allocations while concurrent marking runs: a list of 24 objects; half of
+    /// the time it is dropped again (unreachable at the final mark, must stay intact), otherwise
+    /// it stays in a root (reachable although never traced: allocated "black").
+    fn op_alloc_burst(&mut self) {
+        let r = self.pick_root();
+        let t = SCRATCH;
+        let keep = self.rng.chance(1, 2);
+        let target = if keep { r } else { SCRATCH + 1 };
+        let size = 32 + 8 + 8 * self.rng.usize_below(12);
+        if self.alloc_into_root(target, size, 1, SEM_DEFAULT, KIND_NORMAL, 0, 3, 0) == 0 {
+            return;
+        }
+        for _ in 1..24 {
+            world::safepoint_poll();
+            let size = 40 + 8 * self.rng.usize_below(14);
+            if self.alloc_into_root(t, size, 1, SEM_DEFAULT, KIND_NORMAL, 0, 3, 0) == 0 {
+                break;
+            }
+            self.write_field(t, 0, Some(target));
+            self.copy_root(target, t);
+        }
+        self.drop_root(t);
+        if !keep {
+            self.drop_root(SCRATCH + 1);
+        }
+    }
+
     /// Build a singly linked list of `n` small objects hanging off root r.
     fn op_build_list(&mut self, n: usize) {
         let r = self.pick_root();
@@ -1436,6 +1463,23 @@ impl Mut {
                 continue;
             }
             self.maybe_gc_storm();
+            if SATB_ACTIVE.load(Ordering::Relaxed) && self.rng.chance(1, 2) {
+                // concurrent marking is running: allocate a burst of small objects (they go into
+                // recycled lines of partly used blocks and into fresh blocks), keep a few
+                self.op_alloc_burst();
+                continue;
+            }
+            if scen == "nogcops" && cfg.is_concurrent() && !cfg.off("los") && self.rng.chance(1, 150) {
+                // large garbage fills the heap quickly, so that the next concurrent cycle starts while
+                // partly free (reusable) Immix blocks are still around for the allocation bursts
+                for _ in 0..3 {
+                    world::safepoint_poll();
+                    let size = (1usize << 20) + 4096 * self.rng.usize_below(64);
+                    self.alloc_into_root(SCRATCH, size, 1, SEM_LOS, KIND_NORMAL, 0, 3, 0);
+                }
+                self.drop_root(SCRATCH);
+                continue;
+            }
             let x = self.rng.below(1000);
             match x {
                 0..=299 => self.op_alloc(),
